@@ -462,3 +462,322 @@ Section Frames.
     unfold is_enabled in He. rewrite He. reflexivity.
   Qed.
 End Frames.
+
+(* ------------------------------------------------------------------------------------------
+   Deleting an inactive bias (colvarbias::clear after the fix): only links change. *)
+
+Lemma get_fs_out_of_range s o f :
+  (o <? length s) && (f <? length (o_fs (get_obj s o))) = false -> get_fs s o f = fs_default.
+Proof.
+  intros H. unfold get_fs. apply andb_false_iff in H. destruct H as [H|H].
+  - apply Nat.ltb_ge in H. unfold get_obj. rewrite (nth_overflow _ _ H). cbn. destruct f; reflexivity.
+  - apply Nat.ltb_ge in H. apply nth_overflow. exact H.
+Qed.
+
+Lemma get_fs_upd_obj_links s o u o' f :
+  (forall ob, o_fs (u ob) = o_fs ob) -> get_fs (upd_obj s o u) o' f = get_fs s o' f.
+Proof.
+  intros Hu. unfold get_fs, get_obj, upd_obj. rewrite nth_upd_nth.
+  destruct ((o' =? o) && (o <? length s)); [rewrite Hu|]; reflexivity.
+Qed.
+
+Lemma remove_all_children_fs o s o' f : get_fs (remove_all_children o s) o' f = get_fs s o' f.
+Proof.
+  unfold remove_all_children. rewrite get_fs_upd_obj_links by (intros ob; reflexivity).
+  generalize (o_children (get_obj s o)). intros cs. revert s.
+  induction cs as [|c cs IH]; intros s; cbn [fold_left]; [reflexivity|].
+  rewrite IH. apply get_fs_upd_obj_links. intros ob; reflexivity.
+Qed.
+
+Lemma delete_bias_inactive T n o s :
+  is_enabled s o 0 = false -> delete_bias T n o s = Some (remove_all_children o s).
+Proof. intros H. unfold delete_bias. rewrite H. reflexivity. Qed.
+
+(* a successful disable leaves the feature off *)
+Lemma disable_turns_off T n : forall o f s s', disable T n o f s = Some (true, s') -> is_enabled s' o f = false.
+Proof.
+  destruct n as [|n]; intros o f s s' H; cbn [disable] in H; try discriminate.
+  destruct (negb (fs_enabled (get_fs s o f))) eqn:E0.
+  { inversion H; subst. unfold is_enabled. apply negb_true_iff in E0. exact E0. }
+  destruct (1 <? fs_rc (get_fs s o f))%Z; [discriminate|].
+  destruct (loop_all _ (f_self (feat T (cls_of s o) f)) s) as [s1|]; try discriminate.
+  destruct (loop_all _ (fs_alt (get_fs s1 o f)) s1) as [s2|]; try discriminate.
+  destruct (if is_enabled (set_fs s2 o f fs_clear_alt) o 0 then _ else _) as [s4|]; try discriminate.
+  assert (Hoff : is_enabled (set_fs s4 o f fs_turn_off) o f = false).
+  { unfold is_enabled. rewrite get_fs_set_fs. rewrite !Nat.eqb_refl. cbn [andb].
+    destruct ((o <? length s4) && (f <? length (o_fs (get_obj s4 o)))) eqn:E; [reflexivity|].
+    rewrite (get_fs_out_of_range _ _ _ E). reflexivity. }
+  destruct (f =? 0).
+  - destruct (free_with T (disable T n) o _) as [s6|] eqn:E6; try discriminate.
+    inversion H; subst.
+    assert (Hm : never_enables (set_fs s4 o f fs_turn_off) s').
+    { eapply (free_with_rel T never_enables); try exact E6.
+      - intros ? ? ? Hx; exact Hx.
+      - intros a b c H1 H2 o' f' Hx; apply H1; apply H2; exact Hx.
+      - intros; apply set_fs_never_enables; intros x Hx; exact Hx.
+      - intros oo ff ss rr ss' HD. eapply (disable_rel T never_enables); try exact HD.
+        + intros ? ? ? Hx; exact Hx.
+        + intros a b c H1 H2 o' f' Hx; apply H1; apply H2; exact Hx.
+        + intros; apply set_fs_never_enables; intros x Hx; exact Hx.
+        + intros; apply set_fs_never_enables; intros x Hx; exact Hx.
+        + intros; apply set_fs_never_enables; intros x Hx; cbn in Hx; discriminate. }
+    destruct (is_enabled s' o f) eqn:E; [|reflexivity]. apply Hm in E. congruence.
+  - inversion H; subst. exact Hoff.
+Qed.
+
+(* putting a bias to sleep and then deleting it: the deletion changes no feature state of any object
+   (enabled flags, reference counts, alternate_refs), i.e. nothing is released a second time *)
+Lemma delete_sleeping_bias_releases_nothing T n m b s s1 s2 :
+  disable T n b 0 s = Some (true, s1) -> delete_bias T m b s1 = Some s2 ->
+  forall o f, get_fs s2 o f = get_fs s1 o f.
+Proof.
+  intros Hd Hx o f. apply disable_turns_off in Hd.
+  rewrite (delete_bias_inactive _ _ _ _ Hd) in Hx. inversion Hx; subst. apply remove_all_children_fs.
+Qed.
+
+(* ------------------------------------------------------------------------------------------
+   Termination of the enable family: with a rank on each class's requires graph (acyclicity), bounded by D,
+   and a height on the objects that decreases from parent to child, any fuel above
+   height(o) * (D+1) + rank(f) suffices: the call returns (it is never cut off by the fuel). *)
+
+Lemma depth_le t n f : depth t n f <= n.
+Proof.
+  revert f. induction n as [|n IH]; intros f; cbn [depth]; [lia|].
+  apply le_n_S. induction (deps_of (tfeat t f)) as [|g l IHl]; cbn [fold_right]; [lia|].
+  specialize (IH g). lia.
+Qed.
+
+Lemma acyclic_check_rank t : acyclic_check t = true ->
+  forall f g, In g (deps_of (tfeat t f)) -> rank_of t g < rank_of t f.
+Proof.
+  intros H f g Hg. destruct (Nat.lt_ge_cases f (length t)) as [Hf|Hf].
+  - unfold acyclic_check in H. pose proof (forallb_seq _ _ H f Hf) as H1. cbv beta in H1.
+    rewrite forallb_forall in H1. specialize (H1 g Hg).
+    apply andb_true_iff in H1. destruct H1 as [_ Hb]. apply Nat.ltb_lt in Hb. exact Hb.
+  - unfold tfeat in Hg. rewrite (nth_overflow _ _ Hf) in Hg. cbn in Hg. contradiction.
+Qed.
+
+Section Termination.
+  Variable T : tables.
+  Variable rank : nat -> nat -> nat.
+  Variable D : nat.
+  Hypothesis Hrank : forall cls f g, In g (deps_of (feat T cls f)) -> rank cls g < rank cls f.
+  Hypothesis HD : forall cls f, rank cls f <= D.
+  Variable h : nat -> nat.
+  Variable s0 : state.
+  Hypothesis Hh : forall o c, In c (o_children (get_obj s0 o)) -> h c < h o.
+
+  Definition shaped (s : state) : Prop := same_shape s0 s.
+  Definition mu (o f : nat) : nat := h o * S D + rank (cls_of s0 o) f.
+
+  Lemma shaped_set_fs s o f u : (forall x, fs_avail (u x) = fs_avail x) -> shaped s -> shaped (set_fs s o f u).
+  Proof. intros Hu Hs. eapply same_shape_trans; [exact Hs | apply set_fs_shape; exact Hu]. Qed.
+
+  Lemma shaped_cls s o : shaped s -> cls_of s o = cls_of s0 o.
+  Proof. intros [_ H]. destruct (H o) as (Hc & _). exact Hc. Qed.
+
+  Lemma shaped_children s o : shaped s -> o_children (get_obj s o) = o_children (get_obj s0 o).
+  Proof. intros [_ H]. destruct (H o) as (_ & Hc & _). exact Hc. Qed.
+
+  Lemma loop_abort_total (call : nat -> state -> res) gs :
+    (forall g s, In g gs -> shaped s -> exists r s', call g s = Some (r, s') /\ shaped s') ->
+    forall s, shaped s -> exists r s', loop_abort call gs s = Some (r, s') /\ shaped s'.
+  Proof.
+    induction gs as [|g gs IH]; intros Hc s Hs; cbn [loop_abort].
+    - exists true, s. split; [reflexivity | exact Hs].
+    - destruct (Hc g s (or_introl eq_refl) Hs) as (r & s1 & E & Hs1). rewrite E. destruct r.
+      + apply IH; [|exact Hs1]. intros g' s' Hg'. apply Hc. right; exact Hg'.
+      + exists false, s1. split; [reflexivity | exact Hs1].
+  Qed.
+
+  Lemma loop_all_total (call : nat -> state -> res) gs :
+    (forall g s, In g gs -> shaped s -> exists r s', call g s = Some (r, s') /\ shaped s') ->
+    forall s, shaped s -> exists s', loop_all call gs s = Some s' /\ shaped s'.
+  Proof.
+    induction gs as [|g gs IH]; intros Hc s Hs; cbn [loop_all].
+    - exists s. split; [reflexivity | exact Hs].
+    - destruct (Hc g s (or_introl eq_refl) Hs) as (r & s1 & E & Hs1). rewrite E.
+      apply IH; [|exact Hs1]. intros g' s' Hg'. apply Hc. right; exact Hg'.
+  Qed.
+
+  Section WithE.
+    Variable E : efun.
+
+    Lemma restore_with_total o cs :
+      (forall c g d t e s, In c cs -> shaped s -> exists r s', E c g d t e s = Some (r, s') /\ shaped s') ->
+      forall s, shaped s -> exists s', restore_with T E o cs s = Some s' /\ shaped s'.
+    Proof.
+      intros HE s Hs. unfold restore_with. apply loop_all_total; [|exact Hs].
+      intros fid s1 _ Hs1. destruct (is_enabled s1 o fid).
+      - destruct (loop_all_total (fun g st2 =>
+            match loop_all (fun c st3 => E c g false false false st3) cs st2 with
+            | None => None | Some s => Some (true, s) end) (f_children (feat T (cls_of s1 o) fid))) with (s := s1) as (s2 & E2 & Hs2).
+        + intros g s3 _ Hs3.
+          destruct (loop_all_total (fun c st3 => E c g false false false st3) cs) with (s := s3) as (s4 & E4 & Hs4).
+          * intros c s5 Hc Hs5. apply HE; assumption.
+          * exact Hs3.
+          * rewrite E4. exists true, s4. split; [reflexivity | exact Hs4].
+        + exact Hs1.
+        + rewrite E2. exists true, s2. split; [reflexivity | exact Hs2].
+      - exists true, s1. split; [reflexivity | exact Hs1].
+    Qed.
+
+    Lemma alt_probe_total o f dry err gs :
+      (forall g d t e s, In g gs -> shaped s -> exists r s', E o g d t e s = Some (r, s') /\ shaped s') ->
+      forall s, shaped s -> exists r s', alt_probe E o f dry err gs s = Some (r, s') /\ shaped s'.
+    Proof.
+      induction gs as [|g gs IH]; intros HE s Hs; cbn [alt_probe].
+      - exists false, s. split; [reflexivity | exact Hs].
+      - destruct (HE g true false err s (or_introl eq_refl) Hs) as (r & s1 & E1 & Hs1). rewrite E1. destruct r.
+        + destruct (negb dry || err).
+          * destruct (HE g false false err s1 (or_introl eq_refl) Hs1) as (r2 & s2 & E2 & Hs2). rewrite E2.
+            exists true, (set_fs s2 o f (fs_push_alt g)). split; [reflexivity|].
+            apply shaped_set_fs; [intros x; reflexivity | exact Hs2].
+          * exists true, s1. split; [reflexivity | exact Hs1].
+        + apply IH; [|exact Hs1]. intros g' d t e s' Hg'. apply HE. right; exact Hg'.
+    Qed.
+
+    Lemma alt_one_total o f dry err gs :
+      (forall g d t e s, In g gs -> shaped s -> exists r s', E o g d t e s = Some (r, s') /\ shaped s') ->
+      forall s, shaped s -> exists r s', alt_one E o f dry err gs s = Some (r, s') /\ shaped s'.
+    Proof.
+      intros HE s Hs. unfold alt_one.
+      destruct (alt_probe_total o f dry err gs HE s Hs) as (r & s1 & E1 & Hs1). rewrite E1. destruct r.
+      - exists true, s1. split; [reflexivity | exact Hs1].
+      - destruct (negb dry).
+        + destruct (loop_all_total (fun g s => E o g false false true s) gs) with (s := s1) as (s2 & E2 & Hs2).
+          * intros g s3 Hg Hs3. apply HE; assumption.
+          * exact Hs1.
+          * rewrite E2. exists false, s2. split; [reflexivity | exact Hs2].
+        + exists false, s1. split; [reflexivity | exact Hs1].
+    Qed.
+
+    Lemma loop_alts_total o f dry err alts :
+      (forall g d t e s, In g (concat alts) -> shaped s -> exists r s', E o g d t e s = Some (r, s') /\ shaped s') ->
+      forall s, shaped s -> exists r s', loop_alts E o f dry err alts s = Some (r, s') /\ shaped s'.
+    Proof.
+      induction alts as [|gs alts IH]; intros HE s Hs; cbn [loop_alts].
+      - exists true, s. split; [reflexivity | exact Hs].
+      - destruct (alt_one_total o f dry err gs) with (s := s) as (r & s1 & E1 & Hs1).
+        + intros g d t e s' Hg. apply HE. cbn [concat]. apply in_or_app. left; exact Hg.
+        + exact Hs.
+        + rewrite E1. destruct r.
+          * apply IH; [|exact Hs1]. intros g d t e s' Hg. apply HE. cbn [concat]. apply in_or_app. right; exact Hg.
+          * exists false, s1. split; [reflexivity | exact Hs1].
+    Qed.
+  End WithE.
+
+  Lemma mu_child o c f g : In c (o_children (get_obj s0 o)) -> mu c g < mu o f.
+  Proof.
+    intros Hc. unfold mu. pose proof (Hh _ _ Hc) as H1. pose proof (HD (cls_of s0 c) g) as H2.
+    assert (h c * S D + S D <= h o * S D) by nia. lia.
+  Qed.
+
+  Lemma enable_total n : forall o f dry top err s, shaped s -> mu o f < n ->
+    exists r s', enable T n o f dry top err s = Some (r, s') /\ shaped s'.
+  Proof.
+    induction n as [|n IH]; intros o f dry top err s Hs Hmu; [lia|].
+    cbn [enable].
+    destruct (negb (f <? nfeat T (cls_of s o))); [exists false, s; split; [reflexivity | exact Hs]|].
+    destruct (fs_enabled (get_fs s o f)).
+    { eexists; eexists; split; [reflexivity|]. destruct (negb (dry || top)); [|exact Hs].
+      apply shaped_set_fs; [intros x; reflexivity | exact Hs]. }
+    destruct (negb (fs_avail (get_fs s o f))); [exists false, s; split; [reflexivity | exact Hs]|].
+    destruct (negb top && negb (is_dynamic (feat T (cls_of s o) f))); [exists false, s; split; [reflexivity | exact Hs]|].
+    destruct (existsb _ _); [exists false, s; split; [reflexivity | exact Hs]|].
+    rewrite (shaped_cls s o Hs).
+    (* requires_self *)
+    destruct (loop_abort_total (fun g s1 => enable T n o g dry false err s1) (f_self (feat T (cls_of s0 o) f))) with (s := s)
+      as (r1 & s1 & E1 & Hs1).
+    { intros g s2 Hg Hs2. apply IH; [exact Hs2|].
+      assert (rank (cls_of s0 o) g < rank (cls_of s0 o) f) by (apply Hrank; unfold deps_of; apply in_or_app; left; exact Hg).
+      unfold mu in *. lia. }
+    { exact Hs. }
+    rewrite E1. destruct r1; [|exists false, s1; split; [reflexivity | exact Hs1]].
+    (* requires_alt *)
+    destruct (loop_alts_total (enable T n) o f dry err (f_alt (feat T (cls_of s0 o) f))) with (s := s1)
+      as (r2 & s2 & E2 & Hs2).
+    { intros g d t e s3 Hg Hs3. apply IH; [exact Hs3|].
+      assert (rank (cls_of s0 o) g < rank (cls_of s0 o) f) by (apply Hrank; unfold deps_of; apply in_or_app; right; exact Hg).
+      unfold mu in *. lia. }
+    { exact Hs1. }
+    rewrite E2. destruct r2; [|exists false, s2; split; [reflexivity | exact Hs2]].
+    (* requires_children *)
+    destruct (loop_abort_total (fun g s3 =>
+                loop_abort (fun c s' => enable T n c g (dry || negb (is_enabled s' o 0)) false err s')
+                           (o_children (get_obj s3 o)) s3) (f_children (feat T (cls_of s0 o) f))) with (s := s2)
+      as (r3 & s3 & E3 & Hs3).
+    { intros g s4 _ Hs4. rewrite (shaped_children s4 o Hs4).
+      apply loop_abort_total; [|exact Hs4].
+      intros c s5 Hc Hs5. apply IH; [exact Hs5|]. pose proof (mu_child o c f g Hc). lia. }
+    { exact Hs2. }
+    rewrite E3. destruct r3; [|exists false, s3; split; [reflexivity | exact Hs3]].
+    destruct dry; [exists true, s3; split; [reflexivity | exact Hs3]|].
+    assert (Hs4 : shaped (set_fs s3 o f (fs_turn_on top))) by (apply shaped_set_fs; [intros x; reflexivity | exact Hs3]).
+    destruct (f =? 0).
+    - destruct (restore_with_total (enable T n) o (o_children (get_obj (set_fs s3 o f (fs_turn_on top)) o))) with (s := set_fs s3 o f (fs_turn_on top))
+        as (s5 & E5 & Hs5).
+      + intros c g d t e s6 Hc Hs6. apply IH; [exact Hs6|].
+        rewrite (shaped_children _ o Hs4) in Hc. pose proof (mu_child o c f g Hc). lia.
+      + exact Hs4.
+      + rewrite E5. exists true, s5. split; [reflexivity | exact Hs5].
+    - eexists; eexists; split; [reflexivity | exact Hs4].
+  Qed.
+
+  Lemma restore_children_deps_total n o s : shaped s -> h o * S D <= n ->
+    exists s', restore_children_deps T n o s = Some s' /\ shaped s'.
+  Proof.
+    intros Hs Hn. unfold restore_children_deps. apply restore_with_total; [|exact Hs].
+    intros c g d t e s1 Hc Hs1. apply enable_total; [exact Hs1|].
+    rewrite (shaped_children s o Hs) in Hc. pose proof (Hh _ _ Hc) as H1. pose proof (HD (cls_of s0 c) g) as H2.
+    unfold mu. assert (h c * S D + S D <= h o * S D) by nia. lia.
+  Qed.
+End Termination.
+
+Lemma forallb_nth {A} (p : A -> bool) l d : forallb p l = true -> p d = true -> forall i, p (nth i l d) = true.
+Proof.
+  intros H Hd i. destruct (Nat.lt_ge_cases i (length l)) as [Hi|Hi].
+  - rewrite forallb_forall in H. apply H. apply nth_In. exact Hi.
+  - rewrite (nth_overflow _ _ Hi). exact Hd.
+Qed.
+
+(* instantiation with the computed rank of acyclic tables: fuel above height * (Dmax+1) + Dmax always suffices,
+   where Dmax bounds the table lengths *)
+Lemma enable_terminates_tables (T : tables) (Dmax : nat) :
+  forallb acyclic_check T = true -> forallb (fun t => length t <=? Dmax) T = true ->
+  forall (h : nat -> nat) (s0 : state), (forall o c, In c (o_children (get_obj s0 o)) -> h c < h o) ->
+  forall n o f dry top err s, same_shape s0 s -> h o * S Dmax + Dmax < n ->
+  exists r s', enable T n o f dry top err s = Some (r, s') /\ same_shape s0 s'.
+Proof.
+  intros Hac Hlen h s0 Hh n o f dry top err s Hs Hn.
+  set (rank := fun cls ff => rank_of (nth cls T []) ff).
+  assert (Hrank : forall cls ff g, In g (deps_of (feat T cls ff)) -> rank cls g < rank cls ff).
+  { intros cls ff g Hg. unfold rank. apply acyclic_check_rank; [|exact Hg].
+    apply (forallb_nth acyclic_check T [] Hac). reflexivity. }
+  assert (HD : forall cls ff, rank cls ff <= Dmax).
+  { intros cls ff. unfold rank. cbv beta. unfold rank_of.
+    pose proof (depth_le (nth cls T []) (length (nth cls T [])) ff) as H1.
+    pose proof (forallb_nth (fun t => length t <=? Dmax) T [] Hlen eq_refl cls) as H2. cbv beta in H2.
+    apply Nat.leb_le in H2. eapply Nat.le_trans; [exact H1 | exact H2]. }
+  apply (enable_total T rank Dmax Hrank HD h s0 Hh n o f dry top err s Hs).
+  unfold mu. pose proof (HD (cls_of s0 o) f). lia.
+Qed.
+
+Lemma restore_terminates_tables (T : tables) (Dmax : nat) :
+  forallb acyclic_check T = true -> forallb (fun t => length t <=? Dmax) T = true ->
+  forall (h : nat -> nat) (s0 : state), (forall o c, In c (o_children (get_obj s0 o)) -> h c < h o) ->
+  forall n o s, same_shape s0 s -> h o * S Dmax <= n ->
+  exists s', restore_children_deps T n o s = Some s' /\ same_shape s0 s'.
+Proof.
+  intros Hac Hlen h s0 Hh n o s Hs Hn.
+  set (rank := fun cls ff => rank_of (nth cls T []) ff).
+  assert (Hrank : forall cls ff g, In g (deps_of (feat T cls ff)) -> rank cls g < rank cls ff).
+  { intros cls ff g Hg. unfold rank. apply acyclic_check_rank; [|exact Hg].
+    apply (forallb_nth acyclic_check T [] Hac). reflexivity. }
+  assert (HD : forall cls ff, rank cls ff <= Dmax).
+  { intros cls ff. unfold rank. cbv beta. unfold rank_of.
+    pose proof (depth_le (nth cls T []) (length (nth cls T [])) ff) as H1.
+    pose proof (forallb_nth (fun t => length t <=? Dmax) T [] Hlen eq_refl cls) as H2. cbv beta in H2.
+    apply Nat.leb_le in H2. eapply Nat.le_trans; [exact H1 | exact H2]. }
+  apply (restore_children_deps_total T rank Dmax Hrank HD h s0 Hh n o s Hs Hn).
+Qed.
